@@ -45,7 +45,12 @@ fn pos_of(it: &Item, seed: u64, k: u16, cap: u64) -> Vec<u64> {
 
 fn chk(out: &mut Shards, id: usize, f: &BloomFilter) {
     let b = f.serialize();
-    out.ev(json!({"op":"BChk","id":id,"bits":image_bits(&b),"used":f.bits_used(),"len":b.len()}));
+    let mut e = json!({"op":"BChk","id":id,"bits":image_bits(&b),"used":f.bits_used(),"len":b.len()});
+    if b.len() <= 600 {
+        e["img"] = json!(b);
+        e["seed8"] = json!(f.seed().to_le_bytes().to_vec());
+    }
+    out.ev(e);
 }
 
 fn scenario(out: &mut Shards, rng: &mut Rng, nbits: u64, k: u16, seed: u64, n_items: usize, n_ops: usize, allow_invert: bool) {
